@@ -13,7 +13,7 @@ import (
 	"github.com/nikunjy/rules/parser"
 )
 
-// concMain: driver conc <cases> <out> <goroutines> <rounds> <gomaxprocs>
+// concMain: driver conc <cases> <out> <goroutines> <rounds> <gomaxprocs> [<extra Process calls per case>]
 // Every goroutine owns a disjoint slice of the eval cases and its own Evaluator
 // values.  All goroutines start together behind a barrier, so the first use of
 // the package (lazy static initialisation of lexer and parser) is concurrent.
@@ -28,6 +28,11 @@ func concMain(args []string) {
 	rounds, _ := strconv.Atoi(args[3])
 	procs, _ := strconv.Atoi(args[4])
 	runtime.GOMAXPROCS(procs)
+	// optional: that many further Process calls per case on the first evaluator (keeps all goroutines inside their rules at once)
+	extra := 0
+	if len(args) > 5 {
+		extra, _ = strconv.Atoi(args[5])
+	}
 	f, err := os.Open(args[0])
 	if err != nil {
 		fmt.Fprintln(os.Stderr, err)
@@ -87,6 +92,11 @@ func concMain(args []string) {
 				}
 				first := one(ev)
 				stable := true
+				for k := 0; k < extra; k++ {
+					if one(ev) != first {
+						stable = false
+					}
+				}
 				for r := 1; r < rounds; r++ {
 					if one(ev) != first {
 						stable = false
